@@ -77,6 +77,7 @@ CHECKS["C05"] = {
                   "datastore stands in for the real one; ValueStore.Put is driven with rec.Key == key as all callers do (the handler-level key check is exercised at DHT level).",
     "parts": [
         {"part": "history", "pkg": REC, "test": "TestVerif_C05_History", "quick": 4000, "thorough": 30000},
+        {"part": "history-gofuzz", "pkg": REC, "fuzz": "FuzzVerif_C05_History", "fuzz_seconds": 45, "quick": 0, "thorough": 0, "test": "FuzzVerif_C05_History"},
         {"part": "interleave", "pkg": REC, "test": "TestVerif_C05_Interleave", "quick": 600, "thorough": 8000},
         {"part": "node", "pkg": "./", "test": "TestVerif_C05_Node", "quick": 400, "thorough": 6000},
     ],
@@ -93,6 +94,7 @@ CHECKS["C07"] = {
                   "(go-datastore NaiveQueryApply prefix semantics) stands in for the real one; the sweep is invoked directly (collectExpired) in the interleaving part.",
     "parts": [
         {"part": "history", "pkg": REC, "test": "TestVerif_C07_History", "quick": 4000, "thorough": 30000},
+        {"part": "history-gofuzz", "pkg": REC, "fuzz": "FuzzVerif_C07_History", "fuzz_seconds": 45, "quick": 0, "thorough": 0, "test": "FuzzVerif_C07_History"},
         {"part": "interleave", "pkg": REC, "test": "TestVerif_C07_Interleave", "quick": 600, "thorough": 8000},
     ],
 }
@@ -235,6 +237,7 @@ CHECKS["C12"] = {
     "level_note": "Quiescent points = 3 min of virtual time after each event plus synctest.Wait; retention of healthy peers is not asserted (bucket replacement is legitimate); failures inside the window of a cancelled lookup are not counted as failures.",
     "parts": [
         {"part": "routing-table", "pkg": ROOT, "test": "TestVerif_C12_RoutingTable", "quick": 4800, "thorough": 20000},
+        {"part": "routing-table-gofuzz", "pkg": ROOT, "fuzz": "FuzzVerif_C12_RoutingTable", "fuzz_seconds": 60, "quick": 0, "thorough": 0, "test": "FuzzVerif_C12_RoutingTable"},
     ],
 }
 
@@ -247,6 +250,7 @@ CHECKS["C13"] = {
     "level_note": "Requests and events are interleaved at quiescent points only (an event delivered at the very instant of a request is not asserted); the fake network's connection registry feeds the demotion's stream reset.",
     "parts": [
         {"part": "modes", "pkg": ROOT, "test": "TestVerif_C13_Modes", "quick": 6000, "thorough": 20000},
+        {"part": "modes-gofuzz", "pkg": ROOT, "fuzz": "FuzzVerif_C13_Modes", "fuzz_seconds": 45, "quick": 0, "thorough": 0, "test": "FuzzVerif_C13_Modes"},
     ],
 }
 
@@ -275,6 +279,7 @@ CHECKS["C15"] = {
     "level_note": "Address classes are public/private by construction (ambiguous classes such as CGNAT or DNS are not generated); seeds get a harness-made public connection address; both inner DHTs share one fake host as in production.",
     "parts": [
         {"part": "dual", "pkg": "./dual/", "test": "TestVerif_C15_Dual", "quick": 3600, "thorough": 20000},
+        {"part": "dual-gofuzz", "pkg": "./dual/", "fuzz": "FuzzVerif_C15_Dual", "fuzz_seconds": 60, "quick": 0, "thorough": 0, "test": "FuzzVerif_C15_Dual"},
         {"part": "findpeer-merge", "pkg": "./dual/", "test": "TestVerif_C15_FindPeerMerge", "quick": 1200, "thorough": 12000},
         {"part": "server-self", "pkg": "./dual/", "test": "TestVerif_C15_ServerSelf", "quick": 600, "thorough": 5000},
     ],
@@ -341,7 +346,7 @@ MANIFEST_HEAD = {
          "kind_free_text": "the real message sender over in-memory stream pairs with scripted responders; build-tag yield points give the harness the interleavings of the sender bookkeeping"},
         {"name": "rt-gate", "path": "harness/internal/verifsim/rtcalls.go", "serves_properties": ["C14"],
          "kind_free_text": "real-time call tracking for code whose Close paths wait on sync.Once / mutexes (which freeze a synctest bubble): the harness owns the schedule through a gate inside a wrapped provider / datastore / router and a goroutine-state probe"},
-        {"name": "gofuzz", "path": "harness/internal/verifsim/check.go", "serves_properties": ["C09", "C10", "C11", "C18", "C19"],
+        {"name": "gofuzz", "path": "harness/internal/verifsim/check.go", "serves_properties": ["C05", "C07", "C09", "C10", "C11", "C12", "C13", "C15", "C18", "C19"],
          "kind_free_text": "RunFuzz: go test -fuzz over the byte stream behind rapid's generators (rapid.MakeFuzz), same oracle as the rapid-driven part; thorough tier only"},
     ],
     "notes": "All checks are property-based tests (pgregory.net/rapid v1.3.0) or exhaustive small-scope enumerations with explicit oracles, "
